@@ -12,6 +12,8 @@ import Scc.Fun2Core.SemFrag
 import Scc.Fun2Core.SemProg
 import Scc.AxCut.PosCapacity
 import Scc.Backend.Mock
+import Scc.X86.Backend
+import Scc.X86.Machine
 
 namespace Scc.Props
 
@@ -51,6 +53,83 @@ def C01_fragChecks (p' : Fun.CheckedProgram) : Bool :=
 def C01_capacity (p' : Fun.CheckedProgram) : Bool :=
   match stages p' with
   | .ok st => decide (2 * AxCut.Pos.progCap st.s5 + 2 < Backend.Mock.T_TEMP)
+  | .error _ => false
+
+/-! ## the integer fragment: executable forms of `IntProg`, `ProgInRange`, `TextLoads` -/
+
+/-- executable form of `C06Generic.IntStmt`: no `let`, `switch`, `create`, `invoke` -/
+def C01_intStmtB : AxCut.Stmt → Bool
+  | .lit _ _ next _ => C01_intStmtB next
+  | .op _ _ _ _ next _ => C01_intStmtB next
+  | .print _ _ next _ => C01_intStmtB next
+  | .ifc _ _ _ t e => C01_intStmtB t && C01_intStmtB e
+  | .exit _ => true
+  | .call _ _ => true
+  | .subst _ next => C01_intStmtB next
+  | _ => false
+
+/-- executable form of `C06Generic.IntProg`: every parameter is an integer, every body an integer
+    statement -/
+def C01_intProgB (q : AxCut.Prog) : Bool :=
+  q.defs.all fun d => d.ctx.all (fun b => decide (b.chi = .ext)) && C01_intStmtB d.body
+
+mutual
+  /-- executable form of `X86.StmtB (fitsI64 · = true) maxSubstX86`: literals are i64 values,
+      substitution lists have fewer than 2^31 pairs -/
+  def C01_stmtRangeB : AxCut.Stmt → Bool
+    | .subst pairs next => decide (pairs.length ≤ 2147483647) && C01_stmtRangeB next
+    | .call _ _ => true
+    | .letS _ _ _ _ next _ => C01_stmtRangeB next
+    | .switch _ _ clauses _ => C01_clausesRangeB clauses
+    | .create _ _ _ clauses next _ _ => C01_clausesRangeB clauses && C01_stmtRangeB next
+    | .invoke _ _ _ _ => true
+    | .lit _ n next _ => X86.fitsI64 n && C01_stmtRangeB next
+    | .op _ _ _ _ next _ => C01_stmtRangeB next
+    | .print _ _ next _ => C01_stmtRangeB next
+    | .ifc _ _ _ t e => C01_stmtRangeB t && C01_stmtRangeB e
+    | .exit _ => true
+  def C01_clausesRangeB : AxCut.Clauses → Bool
+    | .nil => true
+    | .cons _ _ body rest => C01_stmtRangeB body && C01_clausesRangeB rest
+end
+
+/-- executable form of `X86.ProgInRange` (Scc/X86/ProofsWfProg.lean) -/
+def C01_progInRangeB (q : AxCut.Prog) : Bool :=
+  q.types.all (fun d => decide (d.xtors.length ≤ 400000000)) &&
+  q.defs.all (fun d => C01_stmtRangeB d.body)
+
+/-- comments carry no semantics (= `X86.Ref.stripC`) -/
+def C01_stripC : X86.Code → X86.Code
+  | .COMMENT _ => .COMMENT ""
+  | c => c
+
+/-- executable form of `X86.TextLoads routine`: the machine's parser reads the printed routine back,
+    up to the text of comments -/
+def C01_textLoadsB (routine : List X86.Code) : Bool :=
+  match X86.parseText (X86.printProg routine) with
+  | .ok items => decide ((items.map (·.1)).map C01_stripC = routine.map C01_stripC)
+  | .error _ => false
+
+/-- the routine that the x86-64 back end produces for `q5` loads, if there is one (capacity errors
+    produce no routine) -/
+def C01_routineLoadsB (hooks : Bool) (q5 : AxCut.Prog) : Bool :=
+  match X86.compileX86 q5 hooks 0 with
+  | .ok (body, nargs) =>
+    match X86.intoRoutine body nargs with
+    | .ok routine => C01_textLoadsB routine
+    | .error _ => true
+  | .error _ => true
+
+/-- **the integer fragment of the back end**: the linearized program is an integer program
+    (`IntProg`) with literals in range (`ProgInRange`), within the capacity of Theorem A, and the text
+    of its routine (with hooks and without) loads.  Decidable.  For such programs the x86-64 link is
+    a THEOREM (`X86.C06_int_programs_text`): `C01_x86_int`. -/
+def C01_intChecks (p' : Fun.CheckedProgram) : Bool :=
+  C01_capacity p' &&
+  match stages p' with
+  | .ok st =>
+    C01_intProgB st.s5 && C01_progInRangeB st.s5 &&
+    C01_routineLoadsB true st.s5 && C01_routineLoadsB false st.s5
   | .error _ => false
 
 end Scc.Props
